@@ -311,7 +311,7 @@ fn main() {
             // a second fixed one: every thread starts with the first negotiation of an interface (first use of every
             // process-wide lazily initialised piece of state at the same time)
             if n >= 2 {
-                println!("{}", json!([[["create_b", 0, 1], ["call", 0, 5]], [["create_b", 0, 2], ["call", 0, 6]], [["create_a_same", 0, 3], ["call", 0, 7]]]));
+                println!("{}", json!([[["plain_schema", 0, 1], ["create_a_same", 0, 3], ["call", 0, 7]], [["create_b", 0, 2], ["call", 0, 6]], [["plain_schema", 1, 4], ["create_b", 0, 1], ["call", 0, 5]]]));
             }
             let mut i = 0u64;
             let mut printed = if n >= 2 { 2 } else { 1 };
